@@ -1233,6 +1233,36 @@ def mon_C04(case):
                         got[q].get("head", "-").replace("=", "=") != want[q]["head"]:
                     out.append((i, f"C04 message {q} of {t} returned as from={got[q].get('from')} head={got[q].get('head')} content={got[q].get('content')} "
                                    f"but stored as from={want[q]['sender']} head={want[q]['head']} content={want[q]['content']}"))
+        if w[0] == "get" and w[3] == "del":
+            # "the deletion log later reported to a user covers exactly the IDs deleted for that user, no more and no fewer"
+            logs = [f for sid, f in ln.frames if sid == w[1] and re.match(r"meta \S+ del\[", f)]
+            if not has(m, "R"):
+                if logs:
+                    out.append((i, f"C04 [del-log] the deletion log of {t} was served to {act[0]} who has no read permission"))
+                continue
+            if any(f.startswith("ctrl 500") for sid, f in ln.frames) or (i > 0 and case.ops[i - 1].split(" ")[0] in ("fail", "crash")):
+                continue                      # injected store failure
+            since, before, limit = int(kv.get("since", "0") or 0), int(kv.get("before", "0") or 0), int(kv.get("limit", "0") or 0)
+            rows = [d for d in row["dellog"] if d["user"] in ("-", act[0]) and d["id"] >= max(since, 0) and (before <= 1 or d["id"] < before)]
+            if len(rows) > (limit if 0 < limit < 1024 else 1024):
+                continue                      # cut by the limit: which rows stay is the store's choice of order
+            want_ids = set()
+            for d in rows:
+                want_ids |= {d["lo"]} if d["hi"] <= d["lo"] + 1 else set(range(d["lo"], d["hi"]))
+            got_ids, clear = set(), 0
+            for f in logs:
+                body = f[f.index(" del[") + 5:f.rindex("]")]
+                clear = int(body.split(":")[0])
+                for rg in body[body.index(":") + 1:].split(","):
+                    lo, hi = [int(x) for x in rg.split(":")]
+                    got_ids |= {lo} if hi <= lo + 1 else set(range(lo, hi))
+            if got_ids != want_ids:
+                out.append((i, f"C04 [del-log] the deletion log of {t} reported to {act[0]} (since={since} before={before}) lists {sorted(got_ids)}; "
+                               f"deleted for this user in that span: {sorted(want_ids)}"))
+            elif rows and clear != max(d["id"] for d in rows):
+                out.append((i, f"C04 [del-log] the deletion log of {t} reported to {act[0]} ends at transaction {clear}, the last one in the span is "
+                               f"{max(d['id'] for d in rows)}"))
+            continue
         if w[0] == "delmsg":
             oks = [f for sid, f in ln.frames if sid == w[1] and f.startswith("ctrl 200 ")]
             post = ln.store.get(t)
